@@ -109,9 +109,16 @@ class Concretiser:
             return self.fresh('not-a-uuid-%d')
         if self.bool(f_dec_ok(t)) and role in ('decimal', 'other', 'name'):
             n, d = self.int(f_dec_n(t)), self.int(f_dec_d(t))
+            full = len(str(d)) - 1
+            while d > 1 and n % 10 == 0:
+                n, d = n // 10, d // 10
             txt = dec_text(n, d)
-            while txt in self.used:
-                txt = ('-0' + txt[1:]) if txt.startswith('-') else ('0' + txt)
+            # numerically equal prices written differently: trailing zeros (to_string keeps them), up to the scale bound
+            while txt in self.used and len(str(d)) - 1 < full:
+                n, d = n * 10, d * 10
+                txt = dec_text(n, d)
+            if txt in self.used:
+                raise ValueError('no further spelling of decimal ' + txt)
             return txt
         if role == 'decimal':
             return self.fresh('notanumber%d')
@@ -188,7 +195,12 @@ class Concretiser:
             if dn == 'numstr':
                 return str(self.int(t.arg(0)))
             if dn == 'decstr':
-                return dec_text(self.int(t.arg(0)), self.int(t.arg(1)))
+                n, d = self.int(t.arg(0)), self.int(t.arg(1))
+                while d > 1 and n % 10 == 0:
+                    n, d = n // 10, d // 10
+                return dec_text(n, d)
+            if dn == 'deccanon':
+                return self.term_string(t.arg(0), 'price')
         v = self.val(t)
         if v in self.text:
             return self.text[v]
